@@ -25,7 +25,7 @@ func init() {
 	register(&Property{
 		Meta: report.Meta{
 			Property:    "C03",
-			Explanation: "Structural rules on verifyArgs / executionAllowed / Policy.Match: the policy handed to Match aggregates Policy(delegations[i]) for every i of a full-range loop (or Match is an iteration guard of such a loop); the data is ToIPLD(arguments) with its error checked, where arguments is recv.arguments for ExecutionAllowed and the hook's checked result for ExecutionAllowedWithArgsHook; success requires Match's verdict; Policy.Match is a conjunction: per statement result the table {True,OptionalNoData}->continue, {False,NoData}->false is read off the CFG for each of the four result values. Monotonicity follows from this conjunction shape.",
+			Explanation: "Structural rules on verifyArgs / executionAllowed / Policy.Match: the policy handed to Match aggregates Policy(delegations[i]) for every i of a full-range loop (or Match is an iteration guard of such a loop); the data is ToIPLD(arguments) with its error checked, where arguments is recv.arguments for ExecutionAllowed and the hook's checked result for ExecutionAllowedWithArgsHook; success requires Match's verdict; Policy.Match is a conjunction: per statement result the table {True,OptionalNoData}->continue, {False,NoData}->false is read off the CFG for each of the four result values. Monotonicity follows from this conjunction shape. Args.ToIPLD must assemble every key of the container: each map entry is assembled in a full range loop over a permutation of recv.Keys (the list, a full copy, a sorted collection), keyed by the element, with no path through the body that skips the entry or leaves early.",
 			Assumptions: []string{"go/ssa faithfully represents the source", "append(s, xs...) keeps all previous elements"},
 			Trusted:     []string{"golang.org/x/tools/go/ssa v0.29.0", "go/types"},
 			NotDecided:  []string{"truth of individual statements (C11-C13)", "Args.ToIPLD content (trusted builder)"},
@@ -35,7 +35,7 @@ func init() {
 	register(&Property{
 		Meta: report.Meta{
 			Property:    "C04",
-			Explanation: "Decision tables read off the CFG of both IsValidAt methods (every combination of bound present/absent and probe before/after), of verifyTimeBoundAt (invocation and every delegation of a full-range loop must be valid at the probe instant), of verifyTimeBound / IsValidNow (probe = time.Now()), and of parse.OptionalTimestamp (nil -> nil; value = time.Unix(sec,0); int53 bounds). Field/method pairing (expiration<->After, notBefore<->Before) and receiver/argument roles are part of the atoms.",
+			Explanation: "Decision tables read off the CFG of both IsValidAt methods (every combination of bound present/absent and probe before/after), of verifyTimeBoundAt (invocation and every delegation of a full-range loop must be valid at the probe instant), of verifyTimeBound / IsValidNow (probe = time.Now()), and of parse.OptionalTimestamp (nil -> nil; value = time.Unix(sec,0); int53 bounds). Field/method pairing (expiration<->After, notBefore<->Before) and receiver/argument roles are part of the atoms. (R5) every exported option constructor: the function it returns, enumerated in the context of its creator, stores into *time.Time fields only cells allocated during the application, cells of the creator that no application writes (idempotent time.Round / Truncate / UTC of the cell's own value excepted), nil, or the caller's pointer.",
 			Assumptions: []string{"time.Time.After/Before/Unix semantics", "go/ssa faithfully represents the source"},
 			Trusted:     []string{"golang.org/x/tools/go/ssa v0.29.0", "package time"},
 			NotDecided:  []string{"behaviour exactly at a bound (left open by the property)", "time package semantics"},
@@ -88,7 +88,7 @@ func runC02(x *Ctx) {
 
 func runC03(x *Ctx) {
 	x.C.Rule("C03.R1", "Match receives the policies of every delegation of the chain", 2)
-	x.C.Rule("C03.R2", "Match is applied to ToIPLD(arguments); arguments = recv.arguments / the hook's checked result", 3)
+	x.C.Rule("C03.R2", "Match is applied to ToIPLD(arguments); arguments = recv.arguments / the hook's checked result; ToIPLD assembles every key", 4)
 	x.C.Rule("C03.R3", "verifyArgs succeeds only if Match returned true", 1)
 	x.C.Rule("C03.R4", "Policy.Match is a conjunction over all statements with the four-valued table", 7)
 
@@ -163,6 +163,7 @@ func runC03(x *Ctx) {
 		}
 		x.C.Obl("C03.R2", "args-source:"+load.ShortName(f), x.pos(f), desc, ok, dedupLines(detail))
 	}
+	containerComplete(x, "C03.R2", "(*pkg/args.Args).ToIPLD")
 	policyMatchTable(x, "C03.R4", "(pkg/policy.Policy).Match", map[string]string{"True": "continue", "OptionalNoData": "continue", "False": "false", "NoData": "false"})
 }
 
@@ -441,6 +442,8 @@ func runC04(x *Ctx) {
 	x.C.Rule("C04.R2", "verifyTimeBoundAt checks the invocation and every delegation at the probe instant", 3)
 	x.C.Rule("C04.R3", "the probe instant is time.Now(); IsValidNow = IsValidAt(time.Now())", 3)
 	x.C.Rule("C04.R4", "parse.OptionalTimestamp: nil->nil, time.Unix(sec,0), int53 bounds", 5)
+	x.C.Rule("C04.R5", "options: the instant a bound points to is not rewritten after the token is built", 7)
+	boundCells(x)
 
 	type bound struct{ field, cmp, inv string }
 	tables := map[string][]bound{
